@@ -2,6 +2,7 @@ package props
 
 import (
 	"fmt"
+	"net/url"
 	"sort"
 	"strings"
 
@@ -17,7 +18,7 @@ var methodsC11 = []string{"GET", "POST", "PURGE", "OPTIONS"}
 func init() {
 	register(&Prop{
 		ID: "C11", Level: "exploration",
-		Rule: "one case = a router shaped by a seeded mutation history over routes of GET/POST/PURGE/OPTIONS with per-route trailing-slash options, under one of the four combinations of the method-not-allowed and auto-OPTIONS options (custom recording no-route/no-method/options handlers; the built-in redirect handler is observed through a middleware scoped to it); probes use every method incl. OPTIONS, methods without routes, and the target '*'. Oracle for requests no route serves: which special handler runs (OPTIONS with auto replies: options handler iff some method serves the target, else no-route; otherwise no-method iff another method serves it and the option is on; otherwise no-route), the Allow header compared as a set with exactly the methods whose reference match serves host+path directly or by ignoring a trailing slash (+OPTIONS as stated; for '*' every method that has routes), and the context seen by the handler (no route, empty pattern, no parameters, the handler's scope). Where a per-method routing answer falls in a listed C08 known finding, the composition rules are checked against fox's own per-method answer and the finding is counted. Non-trivial: at least 2 probes were answered by a special handler with a non-empty Allow header; distinct = hash of (options, final set, probes).",
+		Rule: "one case = a router shaped by a seeded mutation history over routes of GET/POST/PURGE/OPTIONS with per-route trailing-slash options, under one of the four combinations of the method-not-allowed and auto-OPTIONS options (custom recording no-route/no-method/options handlers; the built-in redirect handler is observed through a middleware scoped to it); probes use every method incl. OPTIONS, methods without routes, the target '*', and (one in four) a request whose escaped path differs from the decoded one (%2F, %20 inside a segment: routing and the Allow scan work on the escaped form). Oracle for requests no route serves: which special handler runs (OPTIONS with auto replies: options handler iff some method serves the target, else no-route; otherwise no-method iff another method serves it and the option is on; otherwise no-route), the Allow header compared as a set with exactly the methods whose reference match serves host+path directly or by ignoring a trailing slash (+OPTIONS as stated; for '*' every method that has routes), and the context seen by the handler (no route, empty pattern, no parameters, the handler's scope). Where a per-method routing answer falls in a listed C08 known finding, the composition rules are checked against fox's own per-method answer and the finding is counted. Non-trivial: at least 2 probes were answered by a special handler with a non-empty Allow header; distinct = hash of (options, final set, probes).",
 		Run:  runC11, Quick: 64000, Thorough: 6400000,
 		Real: commonReal, Stub: commonStub,
 		Tolerances: []string{"leading_slash_capture as in C01", "with auto-OPTIONS enabled a 405 reply lists OPTIONS as well (an OPTIONS request for that target would be answered)"},
@@ -53,8 +54,23 @@ func runC11(src sim.Source, o Opts) *Result {
 					p.Method, p.Path = "OPTIONS", "*"
 				}
 			}
-			probeKeys = append(probeKeys, fmt.Sprint(p))
-			rr.checkUnserved(p, fmt.Sprintf("round %d", r))
+			// requests whose escaped path differs from the decoded one: routing (and the Allow scan) works on the escaped form
+			rawPath := ""
+			if p.Path != "*" && src.Intn("escaped", 4) == 0 {
+				segs := strings.Split(p.Path, "/")
+				if len(segs) < 2 {
+					segs = []string{"", ""}
+				}
+				if i := 1 + src.Intn("rseg", len(segs)-1); segs[i] != "" {
+					segs[i] = sim.Pick(src, "rval", []string{"x%2Fy", "a%2Fb", "a%20b", "%2F"})
+					if u, err := url.ParseRequestURI(strings.Join(segs, "/")); err == nil && u.RawPath != "" {
+						p.Path, rawPath = u.Path, u.RawPath
+						res.inc("probes_with_escaped_path")
+					}
+				}
+			}
+			probeKeys = append(probeKeys, fmt.Sprint(p, rawPath))
+			rr.checkUnserved(p, rawPath, fmt.Sprintf("round %d", r))
 		}
 	}
 	for _, cc := range rr.held {
@@ -73,11 +89,15 @@ func runC11(src sim.Source, o Opts) *Result {
 // effective returns the routing result the composition rules are applied to for (method, host, path): the reference
 // answer, or fox's own answer when the deviation is a listed C08 finding. ok=false: unexplained deviation (C01/C08's
 // verdict, not C11's).
-func (rr *routingRun) effective(method, host, path string) (model.MatchResult, bool) {
-	p := world.Probe{Method: method, Host: host, Path: path}
+func (rr *routingRun) effective(method, host, decoded, rawPath string) (model.MatchResult, bool) {
+	p := world.Probe{Method: method, Host: host, Path: decoded}
+	path := decoded // the path routing works on: the escaped form when the request has one
+	if rawPath != "" {
+		path = rawPath
+	}
 	mA := rr.set.Match(method, host, path, model.MatchOpts{})
 	mB := rr.set.Match(method, host, path, model.MatchOpts{AllowLeadingSlashCapture: true})
-	lk := world.ObsLookup(rr.w.R, p)
+	lk := rr.lookupRaw(p, rawPath)
 	ans := lookupAnswer{tag: lk.Tag, tsr: lk.TSR, params: world.FmtParams(lk.Params), hasPar: true}
 	fromFox := func() model.MatchResult {
 		if lk.Tag == -1 {
@@ -99,26 +119,30 @@ func (rr *routingRun) effective(method, host, path string) (model.MatchResult, b
 	return model.MatchResult{}, false
 }
 
-func (rr *routingRun) checkUnserved(p world.Probe, where string) {
+func (rr *routingRun) checkUnserved(p world.Probe, rawPath, where string) {
 	res := rr.res
+	matchPath := p.Path
+	if rawPath != "" {
+		matchPath = rawPath
+	}
 	cfg := rr.w.ModelCfg()
 	res.Checks++
 	var sv model.Served
 	if p.Path == "*" {
 		sv = rr.set.Serve(cfg, p.Method, p.Host, p.Path, p.Path, model.MatchOpts{})
 	} else {
-		eff, ok := rr.effective(p.Method, p.Host, p.Path)
+		eff, ok := rr.effective(p.Method, p.Host, p.Path, rawPath)
 		if !ok {
 			res.inc("probes_skipped_routing_deviation_is_c08")
 			return
 		}
-		first := rr.set.Dispatch(cfg, p.Method, p.Host, p.Path, p.Path, eff, model.MatchOpts{})
+		first := rr.set.Dispatch(cfg, p.Method, p.Host, matchPath, p.Path, eff, model.MatchOpts{})
 		if first.Kind == model.KRoute || first.Kind == model.KRedirect {
 			sv = first
 		} else {
 			// recompute the Allow set from per-method effective answers
 			serves := func(mm string) (bool, bool) {
-				e, ok := rr.effective(mm, p.Host, p.Path)
+				e, ok := rr.effective(mm, p.Host, p.Path, rawPath)
 				if !ok {
 					return false, false
 				}
@@ -165,7 +189,7 @@ func (rr *routingRun) checkUnserved(p world.Probe, where string) {
 			sort.Strings(sv.Allow)
 		}
 	}
-	obs := rr.w.Serve(p, "", "", nil)
+	obs := rr.w.Serve(p, rawPath, "", nil)
 	if obs.Panic != nil {
 		res.fail("C11/panic", "%s: ServeHTTP %v panicked: %v", where, p, obs.Panic)
 		return
@@ -181,7 +205,7 @@ func (rr *routingRun) checkUnserved(p world.Probe, where string) {
 			}
 			rs = append(rs, fmt.Sprintf("%s %s%s", r.Method, r.Pattern, o))
 		}
-		return fmt.Sprintf("%s: %s %s%s with options %s answered by %s (status %d, Allow %v); expected %s (Allow %v); routes: %s", where, p.Method, p.Host, p.Path, rr.cfg, obs.Kind, obs.Status, obs.Allow, sv.Kind, sv.Allow, strings.Join(rs, ", "))
+		return fmt.Sprintf("%s: %s %s%s (escaped form %q) with options %s answered by %s (status %d, Allow %v); expected %s (Allow %v); routes: %s", where, p.Method, p.Host, p.Path, rawPath, rr.cfg, obs.Kind, obs.Status, obs.Allow, sv.Kind, sv.Allow, strings.Join(rs, ", "))
 	}
 	if sv.Kind == model.KRoute || sv.Kind == model.KRedirect {
 		if obs.Kind != sv.Kind {
